@@ -316,6 +316,10 @@ func (ri *refInterp) run(c *rctx, p []Op) {
 				ri.fillGaps(n, id, 0, o.W)
 				ri.add(c, n)
 			}
+		case "rmlast":
+			if n := len(c.node.Children); n > 0 {
+				c.node.Children = c.node.Children[:n-1]
+			}
 		case "fail":
 			fail("fail")
 		case "errorf":
